@@ -107,7 +107,15 @@ def gen_scenario(rng, tier, eager_input=False):
         elif r < 0.7:
             sc.ops.append(("send_command", rng.choice(cmds), rng.random() < 0.7, eager_input and rng.random() < 0.5))
         elif r < 0.85:
-            sc.ops.append(("send_commands", [rng.choice(cmds) for _ in range(rng.randint(1, 3))], rng.random() < 0.7))
+            chosen = [rng.choice(cmds) for _ in range(rng.randint(1, 4))]
+            op = ("send_commands", chosen, rng.random() < 0.7)
+            if rng.random() < 0.6:
+                # the loop's own options: stop_on_failed and a per-call failed_when_contains list whose markers are words of some
+                # command's output (so that some responses are flagged), words of no output, or nothing at all
+                words = [w for c in cmds for w in re.findall(r"[A-Za-z0-9]{3,}", sc.outputs[c.strip()])]
+                fwc = rng.choice([[], ["NEVER-IN-ANY-OUTPUT"], *([[rng.choice(words)], [rng.choice(words), "NEVER-IN-ANY-OUTPUT"]] if words else [])])
+                op = (*op, rng.random() < 0.6, fwc)
+            sc.ops.append(op)
         else:
             sc.ops.append(gen_interactive(rng, sc))
     if rng.random() < 0.12 and not sc.echo_junk and not sc.prompts:
@@ -269,10 +277,24 @@ def oracle(sc, res):
             if got[0] != "ABANDONED":
                 problems.append(f"send_command({op[1]!r}) returned although the device had printed only {op[2]} bytes of its response and no prompt")
         elif op[0] == "send_commands":
-            if len(got) != len(op[1]):
-                problems.append("send_commands returned wrong number of responses")
+            stop, fwc = (op[3], op[4]) if len(op) > 4 else (False, None)
+            sub = []
             for cmd, g in zip(op[1], got):
-                problems += check_single(dev, cmd, op[2], g, trailing)
+                sub += check_single(dev, cmd, op[2], g, trailing)
+            problems += sub
+            want_n = len(op[1])
+            if fwc is not None and not sub:
+                # every result is the command's own text (checked above): the flag must be computed from that text alone, and with
+                # stop_on_failed the responses end with the first flagged one
+                for i, g in enumerate(got):
+                    flag = any(m in g[0] for m in fwc)
+                    if g[2] != flag:
+                        problems.append(f"send_commands response {i}: failed={g[2]} but its own result {'contains' if flag else 'does not contain'} a marker of {fwc}")
+                    if stop and flag:
+                        want_n = i + 1
+                        break
+            if len(got) != want_n:
+                problems.append(f"send_commands returned {len(got)} responses, {want_n} expected (stop_on_failed={stop}, markers {fwc})")
         elif op[0] == "send_interactive" and len(op) > 4 and op[4] == "early":
             result, raw, _f, _ci = got
             q = op[1][0][0]
@@ -507,6 +529,8 @@ def run(tier, seed):
         else:
             ck.disagree("channel model vs real channel (trace refinement)", scenarios[i].describe(), f"model={out[:400]} real={want[:400]}")
     ck.extra["scenarios_without_model_request"] = len(scenarios) - len(reqs)
+    ck.extra["model_replays_with_driver_level_send_commands"] = sum(1 for q in reqs if re.search(r"(^|;| )sc:", q))
+    ck.extra["model_replays_send_commands_stop_on_failed"] = sum(1 for q in reqs if re.search(r"(^|;| )sc:[01]1:", q))
     # the environment of the theorems (LineDev.onWrite) against the test device (simdevice.CliDevice): same writes, same output per write
     try:
         eouts = run_model("C01", [e[0] for e in env_reqs], native=True) if env_reqs else []
